@@ -57,7 +57,9 @@ def selfvalidate(rep, pid):
                        ("else_after_return", "code after `if c: ...return/raise/continue/break` moved into an else branch"),
                        ("module_alias", "package modules bound under other names (import matid.geometry as mgeom; constants as consts)"),
                        ("keyword_arguments", "every positional argument of a package function / method / constructor call passed by keyword"),
-                       ("swap_independent", "adjacent independent simple assignments exchanged")):
+                       ("swap_independent", "adjacent independent simple assignments exchanged"),
+                       ("annotated_assignments", "every assignment of a local name written with an annotation (x: object = E)"),
+                       ("inserted_pass", "a `pass` inserted after every statement of every function")):
         vs.append(dict(pid=pid, name=f"twin: {what}", expect="silent", edits=[], tier="quick", mentions=None, transform=kind))
     with cf.ThreadPoolExecutor(min(16, os.cpu_count() or 4)) as ex:
         res = list(ex.map(selftest.run_variant, vs))
